@@ -42,7 +42,16 @@ Definition is_float (n : num) : bool := match n with NFloat _ _ => true | NInt _
 (* the parts of a Python complex are floats *)
 Definition scalar_wf (s : scalar) : bool :=
   match s with SComplex re im => is_float re && is_float im | _ => true end.
-Definition quasi_wf (q : quasi) : bool := keys_distinct (map (fun kv => PInt (fst kv)) (q_data q)).
+(* a QuasiDistribution as its constructor leaves it: int outcomes >= 0, pairwise different; no width without data;
+   otherwise every outcome fits into the width (binary_probabilities() renders all keys with that many digits) *)
+Definition fits (w k : Z) : bool :=
+  match bin_str k with Ok b => (slen b <=? w)%Z | Err _ => false end.
+Definition quasi_wf (q : quasi) : bool :=
+  keys_distinct (map (fun kv => PInt (fst kv)) (q_data q))
+  && match q_data q with
+     | [] => Z.eqb (q_width q) 0
+     | _ => forallb (fun kv => (0 <=? fst kv)%Z && fits (q_width q) (fst kv)) (q_data q)
+     end.
 Definition popeval_wf (e : popeval) : bool := pop_wf (pe_population e) && ind_wf (pe_best e).
 Definition aux_wf (a : aux) : bool :=
   match a with
